@@ -1131,8 +1131,8 @@ def finalise(o):
     if isinstance(o, frozenset):
         return ('set', [finalise(x) for x in o])
     if isinstance(o, View):
-        xs = [finalise(x) for x in o.elems()]
-        return xs if o.kind == 'values' else ('set', xs)
+        # documented: {"a" => 1, "b" => 2}.keys() -> ["a", "b"], .values() -> [1, 2], .items() -> [["a", 1], ["b", 2]]
+        return [finalise(x) for x in o.elems()]
     if isinstance(o, (tuple, list)):
         return [finalise(x) for x in o]
     if isinstance(o, Ordering) or is_iterator(o):
